@@ -1,4 +1,3 @@
 #include "sim.h"
 int engine_util_api(RBuf &rq) { return 99; }
 int engine_c14(RBuf &rq) { return 99; }
-int engine_c15(RBuf &rq) { return 99; }
